@@ -4,7 +4,33 @@ import json, os, sys
 HERE = os.path.dirname(os.path.dirname(os.path.abspath(__file__)))
 
 # property -> (technique, level text, level note, design ref)
+GEN_NOTE = "Trusted: CPython ast/compile front-end; the analyser's abstract interpreter (sa/fold.py) and the abstract transfer functions that stand in for beartype's hint-introspection helpers (table in sa/gen.py); the reference semantics of each production and the container-family table (sa/spec.py), which are specification, not repository text. Enumeration is bounded (every production in every slot of every production, depth 2 quick / depth 3 sampled thorough; 2 configurations). Semantics of user metaclasses / validators raising are out of scope."
+
 CLAIMED = {
+ 'C01': ('abstract interpretation of the code generator (finite domain of hint shapes) + term rewriting of generated code + comparison with reference semantics (acceptance direction, truth-table implication fallback) + definite-assignment analysis of assignment expressions + guard (non-emptiness) dominance',
+         'For every enumerated abstract hint shape (all productions nested in all slots, depth 2; depth 3 sampled in the thorough tier) x {is_random} the code beartype would generate is obtained by interpreting make_check_expr over abstract hints, rewritten to a variable-free term and compared with the reference semantics of the hint: the generated test accepts at least what the reference accepts, every item read is guarded, every pith variable is bound where read, templates and call sites agree, validator code is hygienic for every category of pith expression it receives, and the ignorable fast path exists on all three entry routes. Necessary conditions of C01, decided for all hints of the enumerated shapes and, by compositionality of the generator, for their nestings.',
+         GEN_NOTE + ' Known findings F1, F2 (validator hygiene) are genuine defects recorded in known_findings.json.', 'DESIGN.md §4 C01'),
+ 'C02': ('abstract interpretation of the code generator + term comparison with reference semantics (detection direction) + scope/draw consistency + fail-closed table of ignorable-sentinel producers (path-condition fingerprints)',
+         'For every enumerated shape the generated term equals the reference term exactly (prescribed item strategy: random index modulo the length of the same container under is_random, first item otherwise; every fixed-tuple position and the length test; all literals by ==; isinstance-and-issubclass; metahint and every validator conjoined) or implies it; the random draw is in scope exactly when used and is drawn once; an ignorable child elides only the child test; every producer of the ignorable sentinel is one of 14 reviewed producers.',
+         GEN_NOTE + ' Assumes R % n over 32 bits reaches every residue for n <= 2**32. C02.R4 is deliberately fail-closed for new producers.', 'DESIGN.md §4 C02'),
+ 'C03': ('exhaustive evaluation of both dispatchers over the folded sign universe (167 cases) by abstract interpretation + symbolic interpretation of the re-sampling functions + ast queries on generated wrappers under each warn-flag combination + reviewed table of private raise sites',
+         'Generator and explanation path are two implementations of the hint semantics: for every sign x subscription the production the generator emits and the cause finder find_cause selects are paired as the specification table requires; both sides share one logic object per container family; each logic class re-samples exactly the item expression its template tested; the violation class and the raise-vs-warn handler are selected by the same pith kind; the OO API delegates; private desynchronisation raise sites are the 9 reviewed ones.',
+         GEN_NOTE + ' Agreement inside a paired handler for every object (user __instancecheck__, validators raising) is not decided.', 'DESIGN.md §4 C03'),
+ 'C04': ('abstract interpretation of the wrapper generator (generate_code, code_check_args/return, iter_func_args, make_func_signature) over abstract callables + syntax-tree queries on the generated wrapper source',
+         'For 326 abstract callables (12 signatures covering all five parameter kinds x annotation patterns x return kinds x callable kinds) the wrapper source beartype would generate is obtained by interpretation and inspected: each parameter kind is localised from the right source with the true index / name, unpassed parameters are not checked, the keywordable set is exact, there is exactly one call-through f(*args, **kwargs) outside any try, args/kwargs are never modified, parameter checks precede and the return check follows the call, and the returned name is the call result.',
+         'Trusted: as for C01, plus the abstract code object (co_argcount, co_posonlyargcount, co_kwonlyargcount, co_flags, co_varnames) standing in for CPython code objects. CPython\'s own binding errors are not modelled.', 'DESIGN.md §4 C04'),
+ 'C08': ('abstract interpretation of BeartypeCallDecorFuncData.reinit + generate_code for the 4 callable kinds + syntactic kind classification + dataflow facts on the async-yield-from template',
+         'For every callable kind x return kind the generated wrapper is syntactically the same kind of callable and passes the compiler front-end; the awaited value / generator object is what is bound, checked and returned or delegated to; the hand-written async yield-from satisfies the PEP 380 forwarding obligations (asend iff a value was sent, athrow for thrown exceptions, aclose + re-raise on GeneratorExit before BaseException, StopAsyncIteration caught only around forwarding awaits, latest inner value yielded).',
+         'Trusted: as for C04; the PEP 380/525 obligation table in rules/c08.py is specification. Trace equivalence with the undecorated object for all operation sequences is not decided.', 'DESIGN.md §4 C08'),
+ 'C09': ('effect-vocabulary analysis of all generated terms + structural guard check of the quasi-iterable production + strategy-arm analysis of loops in the explanation path + who-may-read of the strategy options',
+         'Every operation generated code applies to (parts of) the checked object is in the O(1) vocabulary, generated code is a single expression without loops / comprehensions / membership tests / aggregates, non-collections are never iterated, every loop of the explanation path over the object is one-element under O1 (or bounded by the hint), and only sampling code reads conf.strategy / conf.is_random. By induction over the hint tree the items read are bounded by the container levels of the hint.',
+         GEN_NOTE + ' Cost of user __len__/__getitem__/isinstance hooks and of repr is not bounded.', 'DESIGN.md §4 C09'),
+ 'C10': ('effect-vocabulary analysis of generated terms + exhaustive sign-universe dispatch against a specification table of re-iterable / one-shot families + sign-set cross-check + guard dominance in the explanation path',
+         'Generated code never stores through, mutates or consumes the object (next() only on a fresh iter()); items are touched only for signs whose family in the specification table is a re-iterable container and never for one-shot / non-container signs, exhaustively over all signs x subscription; mapping values are read through a key obtained from the mapping itself; the explanation path enumerates only Collections; arguments reach the callable untouched (C04.R3).',
+         GEN_NOTE, 'DESIGN.md §4 C10'),
+ 'C12': ('abstract interpretation of the vale factories and operators + translation of is_valid lambdas/defs to terms (sibling agreement) + probe-category hygiene of {obj} + scope-closure check',
+         'For every factory (Is, IsAttr, IsEqual, IsInstance, IsSubclass), operator (&, |, ~) and nesting in the catalogue, the is_valid callable and the is_valid_code string denote the same term; every scope name used by a code string is bound; the code stays correct for each syntactic category of pith expression the generator was observed to pass; the Annotated production is metahint AND every validator and the explanation path consults every validator.',
+         GEN_NOTE + ' Known findings F1, F2 recorded.', 'DESIGN.md §4 C12'),
  'C17': ('ast table cross-check (key/kwargs/slots/properties/validators) + must-pass-through dataflow + interprocedural mutation summary + lock-region check',
          'Necessary structural conditions of the property are decided on every run from the source: the option tables of BeartypeConf agree pairwise, every return of __new__ is dominated by validation, the memo key and the read-back kwargs are in one normal form, the first hashing of raw options is guarded, and the memo table is only touched inside one critical section. Behaviour beyond these conditions (e.g. the environment-variable override) is not decided.',
          'Trusted: CPython ast; name-based call resolution (unresolved callees fail closed); the recognised idioms listed in DESIGN-tables T6. Known findings F9, F12a, F12b are genuine defects recorded in known_findings.json.',
